@@ -115,6 +115,8 @@ def run(spec):
             if sig in reported:
                 continue
             reported.add(sig)
+            if len(violations) >= spec.get('max_reports', 5):
+                continue        # further distinct failure shapes are counted in the evidence, not listed
             hit = [f for f in kf if f['signature'] and f['signature'] in sig]
             if hit:
                 known_lines.append(f"KNOWN-FINDING: property={prop} {hit[0]['id']}: {msg[:200]}")
@@ -138,6 +140,14 @@ def run(spec):
                               'diverging_cases': len(ties), 'searched_cases': len(cases) + extra_run})
             violations.append(f'VIOLATION property={prop} replay={p} no-failing-input-found')
 
+    # 3b. separately reported extras (never turned into a verdict) -----------------------------
+    extras = {}
+    if spec.get('extras') and not replay:
+        try:
+            extras = spec['extras'](dict(tier=tr, rng=rng, base_seed=base_seed, jobs=spec.get('jobs', 8)))
+        except Exception as e:  # an extra must not break the check
+            extras = {'error': repr(e)[:300]}
+
     # 4. evidence -------------------------------------------------------------------------
     nontriv = set()
     dist = {}
@@ -156,9 +166,12 @@ def run(spec):
         'samples': samples,
         'traces_validated_against_impl': kinds['pass'],
         'disagreements_checked': kinds['tie'],
+        'extras': extras,
         'explanation': f"theorems: {[t[0] for t in audit['theorems']]}; correspondence: {kinds}; corpus cases {len(corpus)}; extra search cases {extra_run}; distribution {dist}",
     }
     write_evidence(prop, tr, base_seed, cov, time.time() - t0, len(violations),
                    assumptions=spec.get('assumptions', []))
     print(f"{prop}: theorems {audit['discharged']}/{audit['obligations']} audited; E0 histories {len(cases)} (+{extra_run} extra): {kinds}; nontrivial distinct {len(nontriv)}; {time.time()-t0:.1f}s")
+    for k, v in extras.items():
+        print(f'{prop}: extra (reported separately, not part of the verdict) {k}: {v}')
     finish(prop, violations, known_lines)
